@@ -103,9 +103,14 @@ void muggle_socket_evloop_handle_attach(
  * when release context, socket_evloop_handle will use 'free()' to destroy 
  * context. If user wanna add context that in stack or allocate by memory pool,
  * please set callback by muggle_socket_evloop_handle_set_alloc_free
+ *
+ * @return
+ *     0 - the context has been handed over to the event loop
+ *     otherwise - the context could not be queued (out of memory); it still
+ *                 belongs to the caller
  */
 MUGGLE_C_EXPORT
-void muggle_socket_evloop_add_ctx(
+int muggle_socket_evloop_add_ctx(
 	muggle_event_loop_t *evloop,
 	muggle_socket_context_t *ctx);
 
